@@ -25,6 +25,20 @@
 
 namespace xenium {
 
+namespace detail {
+  // pop_idx and push_idx of a node are incremented by a step > 1 to avoid false sharing; the step has to be
+  // coprime to the number of entries, otherwise the indices do not visit every entry of the node exactly once.
+  constexpr unsigned ramalhete_queue_step_size(unsigned entries_per_node) {
+    constexpr unsigned primes[] = {11, 13, 17, 19, 23, 29, 31, 37};
+    for (unsigned p : primes) {
+      if (entries_per_node % p != 0) {
+        return p;
+      }
+    }
+    return 1;
+  }
+} // namespace detail
+
 /**
  * @brief A fast unbounded lock-free multi-producer/multi-consumer FIFO queue.
  *
@@ -118,7 +132,7 @@ private:
   };
 
   // TODO - make this configurable via policy.
-  static constexpr unsigned step_size = 11;
+  static constexpr unsigned step_size = detail::ramalhete_queue_step_size(entries_per_node);
   static constexpr unsigned max_idx = step_size * entries_per_node;
 
   struct node : reclaimer::template enable_concurrent_ptr<node> {
